@@ -172,6 +172,19 @@ def fix_parens(toks):
     return toks
 
 
+def fix_cc(toks):
+    """repair 6: drop calling-convention keywords that are *not* in the canonical
+    position '( __cdecl *' / '( __stdcall *' (both parsers must agree on the
+    canonical form itself)"""
+    out = []
+    for i, x in enumerate(toks):
+        if x in ('__cdecl', '__stdcall') and not (
+                i > 0 and toks[i - 1] == '(' and i + 1 < len(toks) and toks[i + 1] == '*'):
+            continue
+        out.append(x)
+    return out
+
+
 def fix_arraylen(toks):
     """repair 3: an array length that is an expression ('[ ( 7 ) ]', '[ 0XA -1 ]'):
     the common grammar has a literal or a named constant only"""
@@ -341,13 +354,11 @@ def child_case(st, case):
                                  ('array-length-expression', fix_arraylen),
                                  ('void-parameter-with-name-or-qualifier', fix_voidparam),
                                  ('declarator-name-present', fix_names),
-                                 ('calling-convention-position',
-                                  lambda t: [x for x in t if x not in ('__cdecl', '__stdcall')]),
+                                 ('calling-convention-position', fix_cc),
                                  ('qualifier-position+nested-parens',
                                   lambda t: fix_parens(fix_quals(t))),
                                  ('several-repairs', lambda t: fix_names(fix_voidparam(
-                                     fix_arraylen(fix_parens(fix_quals(
-                                         [x for x in t if x not in ('__cdecl', '__stdcall')]))))))):
+                                     fix_arraylen(fix_parens(fix_quals(fix_cc(t)))))))):
                     rt = fn(toks)
                     if rt != toks and outcome(TS.join(rt)) in ('AA=',):
                         expl = name
